@@ -322,7 +322,150 @@ func c16(r *R) {
 			}
 		}
 	}
+	c16Variadic(r, maps)
 	c16Inventory(r, calls, mcs)
+}
+
+// c16Variadic: a variadic parameter list is an argument too. A caller that spreads a slice it holds
+// (Omit(m, keys...)) hands the helper that very backing array; it must come back unchanged, spare
+// capacity and surroundings included.
+func c16Variadic(r *R, maps []map[string]int) {
+	spares := []int{0, 1, 4}
+	strWindow := func(s []string, spare int) (backing, win []string) {
+		backing = make([]string, 2+len(s)+spare+2)
+		for i := range backing {
+			backing[i] = "<R>"
+			if i < 2 {
+				backing[i] = "<L>"
+			}
+		}
+		copy(backing[2:], s)
+		return backing, backing[2 : 2+len(s) : 2+len(s)+spare]
+	}
+	check := func(name, wit string, before, after any) {
+		r.Eval(name)
+		if snap(before) != snap(after) {
+			r.Bad(name+"/modifies-its-variadic-argument-list", wit, "the spread slice's backing array was %v, became %v", before, after)
+		}
+	}
+	// key lists of Pick / Omit
+	keyLists := enum.AllSlices([]string{"a", "b", "d"}, 3)
+	for _, m := range maps {
+		if len(m) > 2 && !thorough {
+			continue
+		}
+		for _, kl := range keyLists {
+			for _, sp := range spares {
+				for _, h := range []string{"Pick", "Omit"} {
+					backing, keys := strWindow(kl, sp)
+					want := append([]string{}, backing...)
+					in := mcopy(m)
+					if p, _ := enum.Try(func() {
+						if h == "Pick" {
+							gogu.Pick(in, keys...)
+						} else {
+							gogu.Omit(in, keys...)
+						}
+					}); p {
+						continue
+					}
+					check(h, fmt.Sprintf("%s(%s, keys...) with keys=%v (spare capacity %d)", h, mstr(m), kl, sp), want, backing)
+					if len(kl) >= 2 {
+						r.Nontrivial(h + mstr(m) + fmt.Sprint(kl, sp))
+					}
+				}
+			}
+		}
+	}
+	// value lists of Without, Min, Max, ToSlice, Range
+	small := enum.AllSlices([]int{0, 1, 2}, 3)
+	for _, vals := range small {
+		for _, sp := range spares {
+			for _, x := range small {
+				backing, vs := window(vals, sp)
+				want := append([]int{}, backing...)
+				if p, _ := enum.Try(func() { gogu.Without[int, int](append([]int{}, x...), vs...) }); !p {
+					check("Without", fmt.Sprintf("Without(%v, values...) with values=%v (spare capacity %d)", x, vals, sp), want, backing)
+				}
+			}
+			for _, h := range []string{"Min", "Max", "ToSlice", "Range", "RangeRight"} {
+				backing, vs := window(vals, sp)
+				want := append([]int{}, backing...)
+				if p, _ := enum.Try(func() {
+					switch h {
+					case "Min":
+						gogu.Min(vs...)
+					case "Max":
+						gogu.Max(vs...)
+					case "ToSlice":
+						gogu.ToSlice(vs...)
+					case "Range":
+						gogu.Range(vs...)
+					case "RangeRight":
+						gogu.RangeRight(vs...)
+					}
+				}); !p {
+					check(h, fmt.Sprintf("%s(values...) with values=%v (spare capacity %d)", h, vals, sp), want, backing)
+				}
+			}
+		}
+	}
+	// lists of slices: Merge, Intersection, IntersectionBy, Zip, Unzip
+	tiny := enum.AllSlices([]int{0, 1, 2}, 2)
+	var tuples [][][]int
+	for _, a := range tiny {
+		tuples = append(tuples, [][]int{a})
+		for _, b := range tiny {
+			tuples = append(tuples, [][]int{a, b})
+			if thorough {
+				for _, c := range tiny {
+					tuples = append(tuples, [][]int{a, b, c})
+				}
+			}
+		}
+	}
+	render := func(rows [][]int) string {
+		var sb strings.Builder
+		for _, row := range rows {
+			fmt.Fprintf(&sb, "%v/len%d ", row, len(row))
+		}
+		return sb.String()
+	}
+	for _, tu := range tuples {
+		for _, sp := range []int{0, 2} {
+			for _, h := range []string{"Merge", "Intersection", "IntersectionBy", "Zip", "Unzip"} {
+				backing := make([][]int, 1+len(tu)+sp+1)
+				for i := range backing {
+					backing[i] = []int{sentR}
+				}
+				for i, row := range tu {
+					backing[1+i] = append([]int{}, row...)
+				}
+				rows := backing[1 : 1+len(tu) : 1+len(tu)+sp]
+				want := render(backing)
+				if p, _ := enum.Try(func() {
+					switch h {
+					case "Merge":
+						gogu.Merge([]int{5}, rows...)
+					case "Intersection":
+						gogu.Intersection(rows...)
+					case "IntersectionBy":
+						gogu.IntersectionBy(ident, rows...)
+					case "Zip":
+						gogu.Zip(rows...)
+					case "Unzip":
+						gogu.Unzip(rows...)
+					}
+				}); p {
+					continue
+				}
+				r.Eval(h)
+				if got := render(backing); got != want {
+					r.Bad(h+"/modifies-its-variadic-argument-list", fmt.Sprintf("%s(slices...) with slices=%v (spare capacity %d)", h, tu, sp), "the spread list of slices was %s, became %s", want, got)
+				}
+			}
+		}
+	}
 }
 
 func helperOf(name string) string {
